@@ -1,0 +1,426 @@
+//! Verification hooks (feature `verif`): plain-data views of the grammar and
+//! the LR table, and plain-data entry points to private table functions.
+//!
+//! Nothing here changes behaviour; the module only builds real values from
+//! plain inputs, calls the real functions and renders real state as JSON.
+use std::collections::BTreeMap;
+use std::fmt::Write;
+use std::path::Path;
+
+use rustemo::{Parser, ValSpan};
+
+use crate::grammar::builder::GrammarBuilder;
+use crate::grammar::{Associativity, Grammar, NonTerminal, Production, Terminal};
+use crate::index::*;
+use crate::lang::rustemo::RustemoParser;
+use crate::lang::rustemo_actions::Recognizer;
+use crate::settings::Settings;
+use crate::table::{Action, LRTable, TableType};
+
+pub use crate::table::verif_hooks::ItemView;
+
+/// Recognizer of a terminal in plain form.
+#[derive(Debug, Clone)]
+pub enum RecSpec {
+    None,
+    Str(String),
+    Regex(String),
+}
+
+#[derive(Debug, Clone)]
+pub struct TermSpec {
+    pub name: String,
+    pub rec: RecSpec,
+    pub prio: u32,
+    /// 0 = none, 1 = left, 2 = right
+    pub assoc: u8,
+}
+
+#[derive(Debug, Clone)]
+pub struct ProdSpec {
+    /// Non-terminal index (0 = EMPTY, 1 = AUG, 2.. = user).
+    pub nt: usize,
+    /// Symbol indexes (terminals first, then non-terminals).
+    pub rhs: Vec<usize>,
+    pub prio: u32,
+    pub assoc: u8,
+    pub nops: bool,
+    pub nopse: bool,
+}
+
+fn assoc(a: u8) -> Associativity {
+    match a {
+        1 => Associativity::Left,
+        2 => Associativity::Right,
+        _ => Associativity::None,
+    }
+}
+
+fn assoc_code(a: &Associativity) -> u8 {
+    match a {
+        Associativity::None => 0,
+        Associativity::Left => 1,
+        Associativity::Right => 2,
+    }
+}
+
+/// Builds a real `Grammar` from plain data. `terms[0]` must be STOP,
+/// `nonterms[0]` EMPTY, `nonterms[1]` AUG and `prods[0]` the AUG production.
+pub fn grammar(terms: &[TermSpec], nonterms: &[String], prods: &[ProdSpec]) -> Grammar {
+    let tl = terms.len();
+    let mut nts: Vec<NonTerminal> = nonterms
+        .iter()
+        .enumerate()
+        .map(|(i, n)| NonTerminal {
+            idx: NonTermIndex(i),
+            name: n.clone(),
+            ..Default::default()
+        })
+        .collect();
+    let mut productions = ProdVec::new();
+    for (i, p) in prods.iter().enumerate() {
+        let ntidx = prods[..i].iter().filter(|q| q.nt == p.nt).count();
+        nts[p.nt].productions.push(ProdIndex(i));
+        productions.push(Production {
+            idx: ProdIndex(i),
+            nonterminal: NonTermIndex(p.nt),
+            ntidx,
+            rhs: p
+                .rhs
+                .iter()
+                .map(|s| crate::grammar::verif_resolved(SymbolIndex(*s)))
+                .collect(),
+            assoc: assoc(p.assoc),
+            prio: p.prio,
+            nops: p.nops,
+            nopse: p.nopse,
+            ..Default::default()
+        });
+    }
+    Grammar {
+        imports: vec![],
+        productions,
+        terminals: TermVec(
+            terms
+                .iter()
+                .enumerate()
+                .map(|(i, t)| Terminal {
+                    idx: TermIndex(i),
+                    name: t.name.clone(),
+                    recognizer: match &t.rec {
+                        RecSpec::None => None,
+                        RecSpec::Str(s) => Some(Recognizer::StrConst(ValSpan::new(s.clone(), None))),
+                        RecSpec::Regex(s) => {
+                            Some(Recognizer::RegexTerm(ValSpan::new(s.clone(), None)))
+                        }
+                    },
+                    prio: t.prio,
+                    assoc: assoc(t.assoc),
+                    ..Default::default()
+                })
+                .collect(),
+        ),
+        nonterminals: NonTermVec(nts),
+        nonterm_by_name: nonterms
+            .iter()
+            .enumerate()
+            .map(|(i, n)| (n.clone(), SymbolIndex(tl + i)))
+            .collect(),
+        term_by_name: terms
+            .iter()
+            .enumerate()
+            .map(|(i, t)| (t.name.clone(), SymbolIndex(i)))
+            .collect(),
+        empty_index: SymbolIndex(tl),
+        stop_index: SymbolIndex(0),
+        augmented_index: SymbolIndex(tl + 1),
+        augmented_layout_index: None,
+        start_index: SymbolIndex(tl + 2),
+    }
+}
+
+/// Parses grammar text with the real front end.
+pub fn grammar_from_str(text: &str) -> crate::Result<Grammar> {
+    Ok(text.parse::<Grammar>()?)
+}
+
+/// Parses a grammar file with the real front end (as `generate_parser` does).
+pub fn grammar_from_file(path: &Path) -> crate::Result<Grammar> {
+    let mut parser = RustemoParser::new();
+    let file = parser.parse_file(path)?;
+    Ok(GrammarBuilder::new().try_from_file(file, Some(path))?)
+}
+
+/// Plain action.
+#[derive(Clone, Copy, PartialEq, Eq, Debug)]
+pub enum Act {
+    Shift(usize),
+    Reduce(usize, usize),
+    Accept,
+}
+
+fn act(a: &Action) -> Act {
+    match a {
+        Action::Shift(s) => Act::Shift(s.0),
+        Action::Reduce(p, l) => Act::Reduce(p.0, *l),
+        Action::Accept => Act::Accept,
+    }
+}
+
+fn unact(a: &Act) -> Action {
+    match a {
+        Act::Shift(s) => Action::Shift(StateIndex(*s)),
+        Act::Reduce(p, l) => Action::Reduce(ProdIndex(*p), *l),
+        Act::Accept => Action::Accept,
+    }
+}
+
+/// 0 = LALR, 1 = LALR_PAGER, 2 = LALR_RN
+pub fn table_type(tt: u8) -> TableType {
+    match tt {
+        0 => TableType::LALR,
+        1 => TableType::LALR_PAGER,
+        _ => TableType::LALR_RN,
+    }
+}
+
+/// See [`crate::table::verif_hooks::calculate_reductions`].
+pub fn calculate_reductions(
+    grammar: &Grammar,
+    settings: &Settings,
+    items: &[ItemView],
+    cells: &[Vec<Act>],
+    max_prior: &[(usize, u32)],
+) -> Vec<Vec<Act>> {
+    crate::table::verif_hooks::calculate_reductions(
+        grammar,
+        settings,
+        items,
+        cells.iter().map(|c| c.iter().map(unact).collect()).collect(),
+        max_prior,
+    )
+    .iter()
+    .map(|c| c.iter().map(act).collect())
+    .collect()
+}
+
+pub use crate::table::verif_hooks::{
+    first_sets_for, firsts_of, is_reducing, merge_state, rn_lengths, sort_terminals,
+};
+
+fn js(s: &str) -> String {
+    let mut o = String::from("\"");
+    for c in s.chars() {
+        match c {
+            '"' => o.push_str("\\\""),
+            '\\' => o.push_str("\\\\"),
+            '\n' => o.push_str("\\n"),
+            '\r' => o.push_str("\\r"),
+            '\t' => o.push_str("\\t"),
+            c if (c as u32) < 0x20 => {
+                let _ = write!(o, "\\u{:04x}", c as u32);
+            }
+            c => o.push(c),
+        }
+    }
+    o.push('"');
+    o
+}
+
+fn jlist<T, F: Fn(&T) -> String>(items: impl IntoIterator<Item = T>, f: F) -> String {
+    let v: Vec<String> = items.into_iter().map(|x| f(&x)).collect();
+    format!("[{}]", v.join(","))
+}
+
+fn jopt_str(s: &Option<String>) -> String {
+    match s {
+        Some(s) => js(s),
+        None => "null".into(),
+    }
+}
+
+fn jact(a: &Action) -> String {
+    match a {
+        Action::Shift(s) => format!("[\"S\",{}]", s.0),
+        Action::Reduce(p, l) => format!("[\"R\",{},{}]", p.0, l),
+        Action::Accept => "[\"A\"]".into(),
+    }
+}
+
+/// Renders the grammar as JSON (plain data only).
+pub fn grammar_json(g: &Grammar) -> String {
+    let terms = jlist(g.terminals.iter(), |t| {
+        let (rk, rv) = match &t.recognizer {
+            None => ("none", String::new()),
+            Some(Recognizer::StrConst(s)) => ("str", s.as_ref().clone()),
+            Some(Recognizer::RegexTerm(s)) => ("regex", s.as_ref().clone()),
+        };
+        format!(
+            "{{\"idx\":{},\"name\":{},\"prio\":{},\"assoc\":{},\"rec_kind\":{},\"rec\":{},\"has_content\":{},\"reachable\":{},\"annotation\":{},\"meta\":{}}}",
+            t.idx.0,
+            js(&t.name),
+            t.prio,
+            assoc_code(&t.assoc),
+            js(rk),
+            js(&rv),
+            t.has_content,
+            t.reachable.get(),
+            jopt_str(&t.annotation),
+            jlist(t.meta.keys(), |k| js(k)),
+        )
+    });
+    let nonterms = jlist(g.nonterminals.iter(), |n| {
+        format!(
+            "{{\"idx\":{},\"name\":{},\"productions\":{},\"annotation\":{},\"reachable\":{}}}",
+            n.idx.0,
+            js(&n.name),
+            jlist(n.productions.iter(), |p| p.0.to_string()),
+            jopt_str(&n.annotation),
+            n.reachable.get(),
+        )
+    });
+    let prods = jlist(g.productions.iter(), |p| {
+        format!(
+            "{{\"idx\":{},\"nt\":{},\"ntidx\":{},\"kind\":{},\"rhs\":{},\"rhs_names\":{},\"rhs_bool\":{},\"prio\":{},\"assoc\":{},\"nops\":{},\"nopse\":{},\"dynamic\":{},\"meta\":{}}}",
+            p.idx.0,
+            p.nonterminal.0,
+            p.ntidx,
+            jopt_str(&p.kind),
+            jlist(p.rhs_symbols(), |s| s.0.to_string()),
+            jlist(p.rhs.iter(), |a| match &a.name {
+                Some(n) => js(n.as_ref()),
+                None => "null".into(),
+            }),
+            jlist(p.rhs.iter(), |a| a.is_bool.to_string()),
+            p.prio,
+            assoc_code(&p.assoc),
+            p.nops,
+            p.nopse,
+            p.dynamic,
+            jlist(p.meta.keys(), |k| js(k)),
+        )
+    });
+    format!(
+        "{{\"terminals\":{},\"nonterminals\":{},\"productions\":{},\"empty_index\":{},\"stop_index\":{},\"augmented_index\":{},\"augmented_layout_index\":{},\"start_index\":{}}}",
+        terms,
+        nonterms,
+        prods,
+        g.empty_index.0,
+        g.stop_index.0,
+        g.augmented_index.0,
+        match g.augmented_layout_index {
+            Some(i) => i.0.to_string(),
+            None => "null".into(),
+        },
+        g.start_index.0
+    )
+}
+
+/// Renders the table as JSON (plain data only).
+pub fn table_json(t: &LRTable) -> String {
+    let states = jlist(t.states.iter(), |s| {
+        format!(
+            "{{\"idx\":{},\"symbol\":{},\"items\":{},\"actions\":{},\"gotos\":{},\"sorted_terminals\":{},\"max_prior_for_term\":{}}}",
+            s.idx.0,
+            s.symbol.0,
+            jlist(crate::table::verif_hooks::items(s), |i| format!(
+                "{{\"prod\":{},\"pos\":{},\"prod_len\":{},\"rn_len\":{},\"follow\":{}}}",
+                i.prod,
+                i.position,
+                i.prod_len,
+                match i.rn_len {
+                    Some(l) => l.to_string(),
+                    None => "null".into(),
+                },
+                jlist(i.follow.iter(), |f| f.to_string())
+            )),
+            jlist(s.actions.iter(), |c| jlist(c.iter(), |a| jact(a))),
+            jlist(s.gotos.iter(), |g| match g {
+                Some(s) => s.0.to_string(),
+                None => "null".into(),
+            }),
+            jlist(s.sorted_terminals.iter(), |(t, f)| format!("[{},{}]", t.0, f)),
+            jlist(crate::table::verif_hooks::max_prior_for_term(s), |(t, p)| format!(
+                "[{},{}]",
+                t, p
+            )),
+        )
+    });
+    format!(
+        "{{\"states\":{},\"layout_state\":{},\"production_rn_lengths\":{},\"first_sets\":{},\"max_actions\":{},\"max_recognizers\":{},\"conflicts\":{}}}",
+        states,
+        match t.layout_state {
+            Some(s) => s.0.to_string(),
+            None => "null".into(),
+        },
+        match &t.production_rn_lengths {
+            Some(v) => jlist(v.iter(), |l| l.to_string()),
+            None => "null".into(),
+        },
+        jlist(crate::table::verif_hooks::first_sets_of(t), |s| jlist(
+            s.iter(),
+            |x| x.to_string()
+        )),
+        t.max_actions(),
+        t.max_recognizers(),
+        t.get_conflicts().len(),
+    )
+}
+
+/// Parses the grammar file, builds the table with the given settings and
+/// renders both as one JSON document. Mirrors the first half of
+/// `generate_parser` (without the LR conflict rejection and without writing
+/// any file).
+pub fn dump_json(grammar_path: &Path, settings: &Settings) -> crate::Result<String> {
+    let g = grammar_from_file(grammar_path)?;
+    let t = LRTable::new(&g, settings)?;
+    Ok(format!(
+        "{{\"grammar\":{},\"table\":{},\"settings\":{}}}",
+        grammar_json(&g),
+        table_json(&t),
+        settings_json(settings)
+    ))
+}
+
+/// Same as [`dump_json`] for a grammar built from plain data.
+pub fn dump_json_for(g: &Grammar, settings: &Settings) -> crate::Result<String> {
+    let t = LRTable::new(g, settings)?;
+    Ok(format!(
+        "{{\"grammar\":{},\"table\":{},\"settings\":{}}}",
+        grammar_json(g),
+        table_json(&t),
+        settings_json(settings)
+    ))
+}
+
+pub fn settings_json(s: &Settings) -> String {
+    let mut m: BTreeMap<&str, String> = BTreeMap::new();
+    m.insert("prefer_shifts", s.prefer_shifts.to_string());
+    m.insert(
+        "prefer_shifts_over_empty",
+        s.prefer_shifts_over_empty.to_string(),
+    );
+    m.insert("table_type", js(&format!("{:?}", s.table_type)));
+    m.insert("parser_algo", js(&format!("{:?}", s.parser_algo)));
+    m.insert(
+        "lexical_disamb_most_specific",
+        s.lexical_disamb_most_specific.to_string(),
+    );
+    m.insert(
+        "lexical_disamb_longest_match",
+        s.lexical_disamb_longest_match.to_string(),
+    );
+    m.insert(
+        "lexical_disamb_grammar_order",
+        s.lexical_disamb_grammar_order.to_string(),
+    );
+    m.insert("partial_parse", s.partial_parse.to_string());
+    m.insert("skip_ws", s.skip_ws.to_string());
+    format!(
+        "{{{}}}",
+        m.iter()
+            .map(|(k, v)| format!("{}:{}", js(k), v))
+            .collect::<Vec<_>>()
+            .join(",")
+    )
+}
